@@ -193,6 +193,7 @@ Proof. cbn [infix_of]. rewrite !infix_fix. reflexivity. Qed.
 Ltac revs := repeat (progress (cbn [rev]; rewrite ?rev_app_distr)); cbn [rev app]; rewrite <- ?app_assoc; cbn [app].
 
 (* the search for the operator owning a comma skips balanced material *)
+Ltac nogt := repeat match goal with |- context[(1 <? ?c)%Z] => replace (1 <? c)%Z with false by (symmetry; apply Z.ltb_ge; lia) end.
 Lemma scan_balanced : forall n (l : list item), lsize l <= n -> lplain l = true ->
   forall tl cnt pos, (cnt <= 0)%Z ->
   find_op_of_comma_rev (rev (infix_of_list l) ++ tl) cnt pos = find_op_of_comma_rev tl cnt (pos + length (infix_of_list l)).
@@ -205,23 +206,23 @@ Proof.
     assert (Hx : isize x >= 1) by (destruct x; cbn [isize]; lia).
     rewrite (IH l ltac:(lia) Hpl _ cnt pos Hc).
     destruct x as [t|g|k a b].
-    + cbn [infix_of rev app length]. cbn [iplain] in Hpx. cbn [find_op_of_comma_rev].
-      destruct t; try discriminate; cbn [plain] in Hpx;
+    + cbn [infix_of rev app length]. cbn [iplain] in Hpx. cbn [find_op_of_comma_rev]. nogt.
+      destruct t; try discriminate; cbn [plain] in Hpx; nogt;
         try (replace (pos + (1 + length (infix_of_list l))) with (S (pos + length (infix_of_list l))) by lia; reflexivity).
       destruct (cnt =? 1)%Z eqn:E; [apply Z.eqb_eq in E; lia|].
       replace (pos + (1 + length (infix_of_list l))) with (S (pos + length (infix_of_list l))) by lia. reflexivity.
     + rewrite infix_group. rewrite isize_group in Hs. rewrite iplain_group in Hpx.
-      cbn [rev]. rewrite rev_app_distr. cbn [rev app]. cbn [find_op_of_comma_rev].
+      cbn [rev]. rewrite rev_app_distr. cbn [rev app]. cbn [find_op_of_comma_rev]. nogt.
       rewrite <- app_assoc. rewrite (IH g ltac:(lia) Hpx _ (cnt - 1)%Z _ ltac:(lia)).
-      cbn [app find_op_of_comma_rev]. replace (cnt - 1 + 1)%Z with cnt by lia.
+      cbn [app find_op_of_comma_rev]. nogt. replace (cnt - 1 + 1)%Z with cnt by lia.
       f_equal. cbn [length]. rewrite app_length. cbn [length]. lia.
     + rewrite infix_call. rewrite isize_call in Hs. rewrite iplain_call in Hpx. apply andb_prop in Hpx. destruct Hpx as [Hpa Hpb].
-      revs. cbn [find_op_of_comma_rev].
+      revs. cbn [find_op_of_comma_rev]. nogt.
       rewrite (IH b ltac:(lia) Hpb _ (cnt - 1 - 1)%Z _ ltac:(lia)).
-      cbn [find_op_of_comma_rev]. replace (cnt - 1 - 1 + 1)%Z with (cnt - 1)%Z by lia.
+      cbn [find_op_of_comma_rev]. nogt. replace (cnt - 1 - 1 + 1)%Z with (cnt - 1)%Z by lia.
       destruct (cnt - 1 =? 1)%Z eqn:E; [apply Z.eqb_eq in E; lia|].
       rewrite (IH a ltac:(lia) Hpa _ (cnt - 1 - 1)%Z _ ltac:(lia)).
-      cbn [find_op_of_comma_rev]. replace (cnt - 1 - 1 + 1 + 1)%Z with cnt by lia.
+      cbn [find_op_of_comma_rev]. nogt. replace (cnt - 1 - 1 + 1 + 1)%Z with cnt by lia.
       f_equal. cbn [length]. rewrite !app_length. cbn [length]. rewrite !app_length. cbn [length]. lia.
 Qed.
 
@@ -266,7 +267,7 @@ Proof.
       cbn [app apply_events].
       (* the comma: the operator is found behind the first argument and its own parenthesis *)
       rewrite (scan_balanced (lsize a) a (le_n _) Hpa _ 0%Z 0 ltac:(lia)).
-      cbn [find_op_of_comma_rev]. cbn [Z.add Z.eqb Pos.eqb].
+      cbn [find_op_of_comma_rev]. cbn [Z.add Z.eqb Pos.eqb Z.ltb Z.compare Pos.compare Pos.compare_cont].
       replace (rev (infix_of_list a) ++ TOpen :: TOp k :: rres) with ((rev (infix_of_list a) ++ [TOpen]) ++ TOp k :: rres)
         by (rewrite <- app_assoc; reflexivity).
       replace (S (0 + length (infix_of_list a))) with (length (rev (infix_of_list a) ++ [TOpen]))
